@@ -37,10 +37,10 @@ def plans(max_sessions: int, max_batches: int) -> list[tuple[int, ...]]:
     return out
 
 
-def run_product(ctx: Context, props: tuple[str, ...], faults: bool, pl: list[tuple[int, ...]], label: str) -> None:
+def run_product(ctx: Context, props: tuple[str, ...], faults: bool, pl: list[tuple[int, ...]], label: str, also: tuple[str, ...] = ()) -> None:
     t0 = time.time()
     res = explore(ctx.prog, pl, faults=faults)
-    mine = {k: v for k, v in res.violations.items() if v[0] in props}
+    mine = {k: v for k, v in res.violations.items() if v[0] in props or (also and k.startswith(also))}
     for key, (prop, msg, trace, plan) in sorted(mine.items()):
         k2 = key.split(":(")[0] if key.startswith("schedule-dependence") else key
         ctx.fail(f"P.{label}", k2, f"{msg} [plan of calibrate() calls: {plan}]", None, None, trace[-40:])
